@@ -13,6 +13,8 @@ pub struct St {
     pub log: Vec<String>,
     pub counter: u32,
     pub with_text: bool,
+    /// short input: actions also observe the lexer's saved match (must be empty when an action runs)
+    pub short: bool,
 }
 
 #[derive(Clone, Debug, PartialEq, Eq)]
@@ -32,20 +34,21 @@ pub fn show_text(s: &str) -> String {
 
 impl St {
     /// Log the view of an action invocation, return the next scripted decision.
-    pub fn record(&mut self, id: u32, s: Loc, e: Loc, peek: Option<char>, text: String) -> u32 {
+    pub fn record(&mut self, id: u32, s: Loc, e: Loc, peek: Option<char>, text: String, stale: bool) -> u32 {
         self.counter += 1;
         let pk = match peek {
             Some(c) => (c as u32).to_string(),
             None => "-".to_string(),
         };
         self.log.push(format!(
-            "A {} {} {} {} {} {}",
+            "A {} {} {} {} {} {}{}",
             id,
             show_loc(s),
             show_loc(e),
             pk,
             text,
-            self.counter
+            self.counter,
+            if stale { " STALE" } else { "" }
         ));
         let d = if self.script.is_empty() {
             2
@@ -190,6 +193,7 @@ pub fn initial_state(case: &Case) -> St {
         log: vec![],
         counter: 0,
         with_text: case.ctor <= 1,
+        short: case.input.chars().count() <= 64,
     }
 }
 
